@@ -259,6 +259,27 @@ def find_loops(fn):
     return by
 
 
+def fallback_test(fn):
+    """the test guarding `return {"*": args, "**": kwargs}` as a boolean function of
+    inspect.ismethod(func) / inspect.isfunction(func); any other atom is rejected"""
+    for s_ in fn.body:
+        if isinstance(s_, ast.If) and s_.body and isinstance(s_.body[-1], ast.Return) \
+                and src(s_.body[-1].value).replace('"', "'") == "{'*': args, '**': kwargs}":
+            def b(t):
+                if isinstance(t, ast.BoolOp):
+                    op = " && " if isinstance(t.op, ast.And) else " || "
+                    return "(" + op.join(b(v) for v in t.values) + ")"
+                if isinstance(t, ast.UnaryOp) and isinstance(t.op, ast.Not):
+                    return "(negb %s)" % b(t.operand)
+                if src(t) == "inspect.ismethod(func)":
+                    return "is_method"
+                if src(t) == "inspect.isfunction(func)":
+                    return "is_function"
+                fail(t, "fallback test: unsupported atom")
+            return "Definition takes_fallback_gen (is_method is_function : bool) : bool :=\n  %s.\n" % b(s_.test)
+    raise TranslateError("the fallback return {'*': args, '**': kwargs} was not found")
+
+
 def tail_order(fn, kw_loop, ign_loop):
     """the statements between the kwargs loop and the ignore loop: which special key is written first"""
     i0, i1 = fn.body.index(kw_loop), fn.body.index(ign_loop)
@@ -327,7 +348,8 @@ def generate(repo=None):
              % I.block(lp.body, "(Ok arg_dict)"))
     order = tail_order(fn, by["kw"], by["ignore"])
     text += "(* 1 = arg_dict['**'] = varkwargs, 2 = arg_dict['*'] = args[arg_position + 1:] *)\n"
-    text += "Definition tail_order_gen : list Z := %s.\n" % common.coq_list(map(str, order))
+    text += "Definition tail_order_gen : list Z := %s.\n\n" % common.coq_list(map(str, order))
+    text += fallback_test(fn)
     out = os.path.join(common.COQ, "Gen", "T_filter_args.v")
     changed = common.write_if_changed(out, text)
     return out, changed
